@@ -118,6 +118,10 @@ def gen_fscenario(rng, fmt) -> FScenario:
         for fn in rng.sample(["x", "y", "z", "u", "w"], rng.randint(1, 4)):
             alias = "a_" + fn if rng.random() < 0.3 else None
             fields.append((fn, alias, gen_ty(rng, names, 2, native)))
+        if native and not any(t[0] == "leaf" and t[1] in native for (_, _, t) in fields):
+            # every class holds at least one of the format's native types (directly or in a container)
+            inner = ("leaf", rng.choice(native))
+            fields.append(("v", None, rng.choice([inner, inner, ("list", inner), ("opt", inner), ("dict", inner)])))
         sc.classes.append((f"F{i}", rng.random() < 0.7 or i == n - 1, fields))
     sc.placement = rng.choice([None, "call", "call", "config", "config"])
     if sc.placement:
@@ -126,6 +130,8 @@ def gen_fscenario(rng, fmt) -> FScenario:
         for t in native:
             if t in STRATEGIES and rng.random() < 0.6 and t not in types:
                 types.append(t)
+        if native and not (set(types) & set(native)) and rng.random() < 0.85:
+            types.append(rng.choice([t for t in native if t in STRATEGIES]))
         lines = []
         for t in types:
             form = rng.random()
